@@ -1664,6 +1664,15 @@ def c05_nll(ctx):
                 out.append(("after parameter change",) + _nll_grad(fcn))
                 M.set_params(amp, pa)
                 out.append(("back at the first parameter point",) + _nll_grad(fcn))
+                # a small overall coupling convention: densities around and below 1e-6, where the likelihood's log is continued (clip_log)
+                # (added after seeded change C05-cached_int_plain_log: at O(1) couplings every strategy is on the plain-log branch)
+                sc = float(np.sqrt(1e-6 / np.median(np.asarray(amp(data)))))  # the median density lands on the threshold
+                pc = {k_: (v_ * sc if k_.endswith("_total_0r") else v_) for k_, v_ in pa.items()}
+                M.set_params(amp, pc)
+                dens = np.asarray(amp(data))
+                out.append(("chain couplings scaled by %.3g (densities %.1e .. %.1e, library log continued below 1e-6)" % (sc, float(dens.min()), float(dens.max())),) + _nll_grad(fcn))
+                tiny.append((float(dens.min()), float(dens.max())))
+                M.set_params(amp, pa)
                 data2, mc2 = M.cal_data(config, sname, ps2), M.cal_data(config, sname, pm2)
                 fcn2 = FCN(fcn.model, data2, mc2, batch=65000)
                 out.append(("second data set, same model object",) + _nll_grad(fcn2))
@@ -1671,8 +1680,10 @@ def c05_nll(ctx):
                 out.append(("first data set again",) + _nll_grad(fcn))
             return cfg, type(fcn.model).__name__, out
 
+        tiny = []
         ref_cfg, ref_cls, ref = run({})
         assert ref_cls == "Model", ref_cls
+        assert tiny and tiny[0][0] < 1e-6 < tiny[0][1], ("harness: the scaled point does not reach the continued-log region", tiny)
         for kind, o in opts:
             try:
                 cfg, cls, got = run(o)
